@@ -33,7 +33,8 @@ def materialise(cfgd):
 
 CONFIGS = []
 for default in ("".join(["sho", "uld"]), "".join(["mu", "st"])):      # equal to, but not the same object as, the builder's constants
-    for nested in (None, {"n": ["x", "y"]}, {"n": {"x": None, "y": None, "m": ["z"]}}, {"n": {"m": ["z"]}}):
+    for nested in (None, {"n": ["x", "y"]}, {"n": {"x": None, "y": None, "m": ["z"]}}, {"n": {"m": ["z"]}},
+                   {"n": ["x", "y"], "c": {}}):          # a nested field declared without sub fields is a container all the same
         for objs, subs in ((None, None), (["o.x"], None), (["o.x"], ["t.raw"]), ({"o": ["x"]}, ["t.raw", "n.x.raw"]),
                            (["o.x"], []), ([], ["t.raw"]), ([], []), ({}, ()),      # declared but empty is not `undeclared`
                            (ONESHOT(["o.x"]), ONESHOT(["t.raw"])), (ONESHOT(["o.x"]), None),      # any iterable of names is accepted
@@ -47,6 +48,7 @@ EXTRA = ["o:c", "n:d", "o.y:c", "t.raw:b", "n:(m:g)", "n.m:g", "o:(x:c)", "o:(y:
          "o:[1 TO 2]", "n:\"p q\"", "n:(x:[1 TO 2])", "o.x:c~2", "-1", "t:[-1 TO 5]", "n:d^2", "(o:c)", "NOT n:d",
          # texts that mean something to str.format / %: they are data
          "o:\"{x}\"", "n:\"a {} b\"", "n:a\\{1\\}", "o:\"%s %(x)s\"", "n:(m:\"{0}\")", "q.r:\"}\"", "o.p:\"{\"", "o.p.q:x", "o:(p:(q:x))", "t.k:v", "t:(raw:v)",
+         "c:foo", "c:(foo OR bar)", "x AND NOT c:spam", "c.d:v",
          # what the term looks like does not matter: wildcards, the lone star, ranges with wildcard bounds
          "n:jo*", "n:*", "o:te?t", "o:*", "n:[a* TO b*]", "q.r:jo*", "o.p:?", "n:(m:*)", "n.x:*", "t:*"]
 
@@ -131,7 +133,9 @@ def main():
     qs += [q for q in ALWAYS_LONE if q not in qs]
     # the dict-spec variants differ from the others only in what they declare below `o` and `t`: paired with the queries that name those
     late = {ci for ci, c in enumerate(CONFIGS) if isinstance(c["object_fields"], dict) and set(c["object_fields"]) != {"o"} or c["object_fields"] in ({"o": ["y"]}, {"o": {"x": None, "p": ["q"]}}, {"o": {"x", "y"}}, {"o": {"x": None, "p": frozenset(["q"])}})}
-    items = [(q, ci) for q in qs for ci in range(len(CONFIGS)) if ci not in late or "o" in q or "t." in q or "t:" in q]
+    childless = {ci for ci, c in enumerate(CONFIGS) if isinstance(c["nested_fields"], dict) and "c" in c["nested_fields"]}
+    items = [(q, ci) for q in qs for ci in range(len(CONFIGS))
+             if (ci not in late or "o" in q or "t." in q or "t:" in q) and (ci not in childless or "c:" in q or "c." in q or "n" in q)]
     res = pmap(check, items)
     failures = [f for r in res for f in r[1]]
     rest, hit = classify(failures, p.get("known", []))
